@@ -1015,8 +1015,10 @@ def replay(ctx, path):
         r = dict(kv.split("=") for kv in impl[0].split()) if impl[0].startswith("rc=") else {}
         want = rp.get("serial") or {}
         fail = ":e" in rp["bp_line"]
-        bad = bool(problems) or r.get("dl") == "1" or r.get("mtx") == "1" or \
-            (fail and r.get("rc") == "0") or (not fail and want and any(r.get(k) != want.get(k) for k in ("rc", "sz", "out", "ino")))
+        bad = bool(problems) or r.get("dl") == "1" or r.get("mtx") == "1" or r.get("shared") == "1" or \
+            (fail and int(r.get("cfail", "0")) > 0 and r.get("pst") != r.get("cerr")) or \
+            (fail and r.get("rc") not in ("0", r.get("cerr"))) or \
+            (not fail and want and any(r.get(k) != want.get(k) for k in ("rc", "sz", "out", "ino")))
         print("violated:", bad)
         return 1 if bad else 0
     if "fine_line" in rp:
